@@ -191,8 +191,8 @@ func genC33(t *rapid.T) c33Case {
 	c.Extreme = rapid.IntRange(0, 4).Draw(t, "extreme") == 0
 	c.Eng = c27EngineOpts{
 		LookbackMs: rapid.SampledFrom([]int64{1, 1000, 300000, 300000, 600000, 86400000}).Draw(t, "lookback"),
-		Delayed:    rapid.IntRange(0, 3).Draw(t, "delayed") == 0,
-		UseST:      rapid.IntRange(0, 3).Draw(t, "usest") == 0,
+		Delayed:    rapid.IntRange(0, 3).Draw(t, "delayed") == 3,
+		UseST:      rapid.IntRange(0, 3).Draw(t, "usest") == 3,
 		MaxSamples: rapid.SampledFrom([]int{2_000_000, 2_000_000, 2_000_000, 50, 1000}).Draw(t, "maxsamples"),
 	}
 	c.Data = c27GenData(t, c27DataOpts{MaxSeries: 8, MinT: -600_000, MaxT: 3_600_000, Metrics: c27Metrics, LabelNames: c27Labels,
@@ -202,7 +202,7 @@ func genC33(t *rapid.T) c33Case {
 	o.MaxDepth = rapid.IntRange(1, 4).Draw(t, "depth")
 	switch c.Kind {
 	case "typed":
-		if rapid.IntRange(0, 2).Draw(t, "composed") == 0 {
+		if rapid.IntRange(0, 1).Draw(t, "composed") == 0 {
 			c.Expr = c27Compose(t, "range", o)
 		} else {
 			c.Expr = pqlgen.Expr(o, pqlgen.VectorOrScalar).Draw(t, "expr")
@@ -358,8 +358,8 @@ func genC33Conc(t *rapid.T) c33ConcCase {
 	var c c33ConcCase
 	c.Eng = c27EngineOpts{
 		LookbackMs: rapid.SampledFrom([]int64{1000, 300000, 300000, 600000}).Draw(t, "lookback"),
-		Delayed:    rapid.IntRange(0, 4).Draw(t, "delayed") == 0,
-		UseST:      rapid.IntRange(0, 3).Draw(t, "usest") == 0,
+		Delayed:    rapid.IntRange(0, 4).Draw(t, "delayed") == 4,
+		UseST:      rapid.IntRange(0, 3).Draw(t, "usest") == 3,
 	}
 	c.Data = c27GenData(t, c27DataOpts{MaxSeries: 8, MinT: -600_000, MaxT: 3_600_000, Metrics: c27Metrics, LabelNames: c27Labels,
 		LabelValues: c27Values, Histograms: true, SpecialVals: true, ST: c.Eng.UseST})
